@@ -5,6 +5,10 @@
 //!   avra-verif selfcheck            (reference-model self tests used by setup.sh)
 
 mod fw;
+mod monitor;
+
+#[global_allocator]
+static GLOBAL: monitor::alloc::Counting = monitor::alloc::Counting;
 mod gen;
 mod props;
 mod refmodel;
